@@ -197,6 +197,109 @@ theorem eval_condition_rel_leaf (cx : CondCtx) (hf : PyVal → String) (ctx_hash
     simp only [condOf, parseCond, hrel, if_true]
   rw [hc, evalCond, ← hcx]
 
+/-! ### stage 4: WHOLE condition trees — the translated `rel` branch (and the translated `_parse_dt`) inside `Src.eval_condition` -/
+
+/-- a non-dict condition is its truth value whatever the externals are -/
+theorem eval_condition_lit_any (o : Oracle) (ga : PyVal → PyVal → PyVal → Except CondErr PyVal) (pd rb : PyVal → PyVal → Except CondErr PyVal)
+    (c env : PyVal) (n : Nat) (h : c.isDict = false) : Src.eval_condition o ga pd rb c env (n + 1) = .ok (.bool c.truthy) := by
+  cases c <;> first | rfl | (simp [PyVal.isDict] at h)
+
+/-- CONGRUENCE on the generated text: `Src.eval_condition` consults its `rel_branch` parameter only on dict sub-documents that have a `rel`
+    key, with the env it was given — two parameters that agree there (on every sub-value of the document) give the same evaluation, for
+    every budget -/
+theorem eval_condition_congr (o : Oracle) (ga : PyVal → PyVal → PyVal → Except CondErr PyVal) (pd rb1 rb2 : PyVal → PyVal → Except CondErr PyVal)
+    (env : PyVal) : ∀ (n : Nat) (c : PyVal), allSub (fun d => PyVal.hasKey d "rel" = true → rb1 d env = rb2 d env) c →
+      Src.eval_condition o ga pd rb1 c env n = Src.eval_condition o ga pd rb2 c env n := by
+  intro n
+  induction n with
+  | zero => intro c _; rfl
+  | succ n ih =>
+    intro c hc
+    cases c with
+    | dict kvs =>
+      have hsub : ∀ k, PyVal.hasKey (.dict kvs) k = true →
+          allSub (fun d => PyVal.hasKey d "rel" = true → rb1 d env = rb2 d env) ((PyVal.dict kvs).get k) := fun k hk => allSub_get hc hk
+      have hitems : ∀ k, PyVal.hasKey (.dict kvs) k = true → ∀ x ∈ Rbacx.Py.iter ((PyVal.dict kvs).get k),
+          Src.eval_condition o ga pd rb1 x env n = Src.eval_condition o ga pd rb2 x env n := by
+        intro k hk x hx
+        rcases allSub_iter (hsub k hk) hx with hnd | hs
+        · cases n with
+          | zero => rfl
+          | succ m => rw [eval_condition_lit_any o ga pd rb1 x env m hnd, eval_condition_lit_any o ga pd rb2 x env m hnd]
+        · exact ih x hs
+      unfold Src.eval_condition
+      simp only [is_strict_e, bind_ok, truthy_pnot, truthy_isInstance_dict, PyVal.isDict, Bool.not_true, Bool.false_eq_true, if_false,
+        containsE_key, truthy_bool]
+      by_cases hrel : PyVal.hasKey (.dict kvs) "rel" = true
+      · simp only [hrel, if_true]
+        exact allSub_self hc hrel
+      · simp only [hrel, Bool.false_eq_true, if_false]
+        congr 1
+        by_cases hand : PyVal.hasKey (.dict kvs) "and" = true
+        · simp only [hand, if_true, itemE_key kvs "and" hand, bind_ok]
+          congr 1
+          simp only [iterE]
+          cases isIterable ((PyVal.dict kvs).get "and") with
+          | false => rfl
+          | true => simp only [if_true, bind_ok]; exact allE_congr _ _ _ (hitems "and" hand)
+        · simp only [hand, Bool.false_eq_true, if_false]
+          by_cases hor : PyVal.hasKey (.dict kvs) "or" = true
+          · simp only [hor, if_true, itemE_key kvs "or" hor, bind_ok]
+            congr 1
+            simp only [iterE]
+            cases isIterable ((PyVal.dict kvs).get "or") with
+            | false => rfl
+            | true => simp only [if_true, bind_ok]; exact anyE_congr _ _ _ (hitems "or" hor)
+          · simp only [hor, Bool.false_eq_true, if_false]
+            by_cases hnot : PyVal.hasKey (.dict kvs) "not" = true
+            · simp only [hnot, if_true, itemE_key kvs "not" hnot, bind_ok, ih _ (hsub "not" hnot)]
+            · simp only [hnot, Bool.false_eq_true, if_false]
+    | _ => rfl
+
+/-- the translated branch, run from the EMPTY memo of a fresh decision and projected to its answer: the value handed to `Src.eval_condition` as
+    its `rel_branch` parameter -/
+def relSrc (o : Oracle) (ctx_hash : PyVal → Except CondErr PyVal) (raw : PyVal → PyVal → PyVal → Except CondErr PyVal) (f : Checker) (loop : PyVal) :
+    PyVal → PyVal → Except CondErr PyVal :=
+  fun c e => (Src.rel_range o noAttr ctx_hash raw f loop c e { memo := some [], calls := [] }).1
+
+/-- THE tie for whole condition TREES: `Src.eval_condition` with its `rel_branch` parameter instantiated with the TRANSLATED branch
+    (`Src.rel_range` run from the empty memo, its answer) computes the model's `evalCond cx (condOf cond)`: same truth value, same exception,
+    for every document `cond`, every oracle, every checker outcome function `f` (the model's checker is its abstraction `absChecker`), every
+    budget above the size.  Hypotheses: the env is one `Guard` builds (`EnvOk`), and every sub-value of the document that has a `rel` key
+    carries caveat contexts that are not non-empty lists / strs (`CtxOk`; on `allSub`: a statement about the whole JSON value, more than the
+    nodes the evaluator visits); `_ctx_hash` returns a str, resolving an awaitable is the identity on the outcome.  (`_parse_dt` here is still
+    the hand-written `parseDtExt`; `Run/C04_eval_condition_closed.lean` replaces it by the translation as well.) -/
+theorem eval_condition_rel_tree (cx : CondCtx)
+    (hf : PyVal → String) (ctx_hash : PyVal → Except CondErr PyVal) (hhash : ∀ c, ctx_hash c = .ok (.str (hf c)))
+    (raw : PyVal → PyVal → PyVal → Except CondErr PyVal) (hraw : ∀ r l t, raw r l t = .ok r) (f : Checker) (hchk : cx.checker = f.map absChecker)
+    (loop : PyVal) (ekvs : List (String × PyVal)) (he : cx.env = .dict ekvs) (henv : EnvOk (.dict ekvs)) (cond : PyVal)
+    (hctx : allSub (fun d => PyVal.hasKey d "rel" = true → CtxOk (.dict ekvs) (d.get "rel")) cond) (fuel : Nat) (hfuel : cond.size < fuel) :
+    Src.eval_condition cx.o noAttr (parseDtExt cx.o) (relSrc cx.o ctx_hash raw f loop) cond cx.env fuel =
+      (evalCond cx (condOf cond)).map PyVal.bool := by
+  have hcx : cx = { o := cx.o, env := .dict ekvs, checker := f.map absChecker } := by
+    cases cx; simp_all
+  rw [eval_condition_congr cx.o noAttr (parseDtExt cx.o) (relSrc cx.o ctx_hash raw f loop) (relExt cx) cx.env fuel cond ?_]
+  · exact eval_condition cx cond fuel hfuel
+  · refine allSub_mono ?_ cond hctx
+    intro d hd hrel
+    cases d with
+    | dict ckvs =>
+      have := rel_range_pure cx.o hf ctx_hash hhash raw hraw f loop ckvs hrel ekvs henv (hd hrel) (some []) (Or.inr rfl) []
+      simp only [relSrc, relExt, he]
+      rw [this, ← hcx]
+    | _ => simp [PyVal.hasKey] at hrel
+
+/-
+  The STATEFUL statement for whole trees — the memo threaded from one `rel` node of the document to the next, i.e.
+    `Src.eval_condition_M … cond env fuel (encSt hf mst) = encOut (evalCondM cx (condOf cond) mst)`
+  (answer, memo afterwards, calls, as `rel_range_model` says for one node and `Rbacx.evalCondM` for the tree) — is NOT stated as a theorem:
+  the cond plugin's `Src.eval_condition` takes `rel_branch` as a PURE parameter (`PyVal → PyVal → Except CondErr PyVal`), so there is no
+  translated term that threads the state; it needs `eval_condition` itself translated state-passing (all(…)/any(…) over a stateful
+  generator).  What connects the two today: `rel_range_model` (one node, any memo) + the model-side theorems `Rbacx.C13.c13_memo_transparent`
+  (the memoised decision = the pure one for a checker that answers equal lookups equally) and `eval_condition_rel_tree` (the pure one = the
+  current source).
+-/
+
 end Rbacx.Translated
 
 #print axioms Rbacx.Translated.canon_subject
@@ -206,3 +309,5 @@ end Rbacx.Translated
 #print axioms Rbacx.Translated.rel_range_pure
 #print axioms Rbacx.Translated.rel_range_calls
 #print axioms Rbacx.Translated.eval_condition_rel_leaf
+#print axioms Rbacx.Translated.eval_condition_congr
+#print axioms Rbacx.Translated.eval_condition_rel_tree
